@@ -37,12 +37,13 @@ FromLog(j, mainnet) ==
     avs      |-> [a \in DOMAIN j.avs |-> [owners |-> Range(j.avs[a].owners), task |-> j.avs[a].task, ver |-> j.avs[a].ver]],
     usd      |-> Range(j.usd),
     tasks    |-> {[t |-> x.t, n |-> x.n] : x \in Range(j.tasks)},
-    results  |-> {[o |-> x.o, t |-> x.t, n |-> x.n] : x \in Range(j.results)},
+    results  |-> {[o |-> x.o, t |-> x.t, n |-> x.n, s |-> x.s] : x \in Range(j.results)},
     chal     |-> {[o |-> x.o, t |-> x.t, n |-> x.n, by |-> x.by] : x \in Range(j.chal)},
     ops      |-> Range(j.ops),
     opt      |-> {[o |-> x.o, a |-> x.a] : x \in Range(j.opt)},
     bls      |-> Range(j.bls),
     ckey     |-> [o \in DOMAIN j.ckey |-> j.ckey[o]],
+    prevkey  |-> Range(j.prevkey),
     vals     |-> Range(j.vals),
     nonce    |-> [k \in DOMAIN j.nonce |-> j.nonce[k]],
     round    |-> j.round,
@@ -89,6 +90,9 @@ Next ==
      IF line.ev = "reset" THEN
        /\ mn' = line.cfg.mainnet
        /\ S' = FromLog(line.st, line.cfg.mainnet)
+       \* the base state the code built = the base state of the model
+       /\ LET tags == T(FromLog(line.st, line.cfg.mainnet) = BaseState(line.cfg.base, IF line.cfg.mainnet THEN "main" ELSE "test"), "STRICT_base_" \o line.cfg.base)
+          IN tags = {} \/ PrintT("TAG " \o ToJson([l |-> l, ev |-> "reset", tags |-> tags]))
      ELSE
        LET post == FromLog(line.st, mn)
            e    == line.a.e
